@@ -3,13 +3,13 @@
      syne_tune/optimizer/schedulers/hyperband_promotion.py  PromotionRungSystem
      syne_tune/optimizer/schedulers/hyperband_cost_promotion.py
      syne_tune/optimizer/schedulers/hyperband_rush.py       RUSHDecider, RUSHPromotionRungSystem
-     syne_tune/optimizer/schedulers/hyperband_pasha.py      PASHARungSystem (epsilon VALUE = recorded oracle)
+     syne_tune/optimizer/schedulers/hyperband_pasha.py      PASHARungSystem (np.percentile VALUE and set iteration order = oracles)
      syne_tune/optimizer/schedulers/hyperband.py            HyperbandBracketManager, HyperbandScheduler
                                                             (suggest / on_trial_result / remove / complete / error)
    Metrics, costs, quantiles are exact rationals. Where the code decides by a
    float comparison against a computed cutoff the model is three-valued
    (Yes / No / Boundary = within relative [c_tol] of the cutoff); Boundary
-   comparisons are resolved by the boolean [b] carried by the Suggest event.
+   comparisons are resolved by [b] carried by the Suggest event (one boolean per rung level).
    Self-contained on purpose (does not use model/Rung.v).  No proofs here. *)
 From Verif Require Import model.Base.
 From Coq Require Import Qabs Qround.
@@ -22,7 +22,7 @@ Inductive err :=
 | EKey            (* KeyError: unknown trial in _active_trials / _task_info / _running / _cost_offset *)
 | ESkipped        (* assert resource == milestone  (hyperband_promotion.py on_task_report) *)
 | EInRung         (* assert trial_id not in rung *)
-| EIndex          (* IndexError (PASHA rankings / bracket out of range) *)
+| EIndex          (* IndexError (bracket / list index out of range) *)
 | EAssert         (* assert not entry.was_promoted / resume_from < milestone / paused-trial asserts *)
 | ELargestUpdate  (* assert largest_update_resource <= resource *)
 | EBadResource    (* _check_result: resource must be a positive integer *)
@@ -138,12 +138,23 @@ Record config := mkC {
 Definition c_levels (cfg : config) : list Z := map fst (c_rungs cfg).
 
 (* ---- rung system ---------------------------------------------------------- *)
+(* PASHA's learning-curve history: self.epsilon, per_epoch_results[trial][epoch], epoch_to_trials[epoch]
+   (a python set: kept in insertion order, the iteration order is an oracle), current_max_epoch *)
+Record hist := mkH {
+  h_eps : Q;
+  h_results : list (Z * list (Z * Q));
+  h_epochs : list (Z * list Z);
+  h_max_epoch : Z
+}.
+Definition init_hist : hist := mkH 0 [] [] (-1).
+
 Record rsys := mkRS {
   rs_rungs : list rung;                       (* self._rungs, highest level first *)
   rs_running : list (Z * (Z * option Z));     (* _running[trial] = (milestone, resume_from) *)
   rs_thr : list (Z * Q);                      (* RUSHDecider._thresholds[level] *)
   rs_idx : nat;                               (* PASHA current_rung_idx *)
-  rs_cap : Z                                  (* PASHA current_max_t *)
+  rs_cap : Z;                                 (* PASHA current_max_t *)
+  rs_hist : hist                              (* PASHA epsilon and learning curves *)
 }.
 
 Definition rs_levels (rs : rsys) : list Z := rev (map r_level (rs_rungs rs)).
@@ -151,7 +162,7 @@ Definition rs_levels (rs : rsys) : list Z := rev (map r_level (rs_rungs rs)).
 Definition mk_sys (cfg : config) (lv : list (Z * Q)) : rsys :=
   let idx := Nat.min (length lv - 1) 2 in
   let cap := match py_nth (map fst lv) (Z.of_nat idx - 1) with Some c => c | None => c_max_t cfg end in
-  mkRS (rev (map (fun p => mkR (fst p) (snd p) []) lv)) [] [] idx cap.
+  mkRS (rev (map (fun p => mkR (fst p) (snd p) []) lv)) [] [] idx cap init_hist.
 
 (* _effective_max_t *)
 Definition eff_max (cfg : config) (rs : rsys) : Z :=
@@ -222,14 +233,19 @@ Definition find_promotable (cfg : config) (thr : list (Z * Q)) (r : rung) (b : b
   | _ => find_promotable_metric cfg thr r b
   end.
 
+(* how Boundary comparisons are resolved, per rung level (default: in favour of promotion) *)
+Definition bres := list (Z * bool).
+Definition bres_at (b : bres) (level : Z) : bool :=
+  match lookup level b with Some v => v | None => true end.
+
 (* the loop of on_task_schedule; result (rung position, trial, pos, level, next_milestone) *)
-Fixpoint scan (cfg : config) (cap : Z) (b : bool) (rungs : list rung) (j : nat) (next_ms : Z)
+Fixpoint scan (cfg : config) (cap : Z) (b : bres) (rungs : list rung) (j : nat) (next_ms : Z)
          (thr : list (Z * Q)) : list (Z * Q) * option (nat * Z * nat * Z * Z) :=
   match rungs with
   | [] => (thr, None)
   | r :: rest =>
       if (r_level r <? cap)%Z then
-        let '(thr', res) := find_promotable cfg thr r b in
+        let '(thr', res) := find_promotable cfg thr r (bres_at b (r_level r)) in
         match res with
         | Some (t, pos) => (thr', Some (j, t, pos, r_level r, next_ms))
         | None => scan cfg cap b rest (S j) (r_level r) thr'
@@ -251,17 +267,17 @@ Definition mark_as_promoted (md : mode) (r : rung) (pos : nat) : result rung :=
 Definition promo := (nat * Z * Z * Z)%type.
 
 (* PromotionRungSystem.on_task_schedule *)
-Definition rs_on_task_schedule (cfg : config) (rs : rsys) (b : bool) : result (rsys * option promo) :=
+Definition rs_on_task_schedule (cfg : config) (rs : rsys) (b : bres) : result (rsys * option promo) :=
   let '(thr', res) := scan cfg (eff_max cfg rs) b (rs_rungs rs) 0 (c_max_t cfg) (rs_thr rs) in
   match res with
-  | None => Ok (mkRS (rs_rungs rs) (rs_running rs) thr' (rs_idx rs) (rs_cap rs), None)
+  | None => Ok (mkRS (rs_rungs rs) (rs_running rs) thr' (rs_idx rs) (rs_cap rs) (rs_hist rs), None)
   | Some (j, t, pos, level, next_ms) =>
       match nth_error (rs_rungs rs) j with
       | None => Err EIndex
       | Some r =>
           match mark_as_promoted (c_mode cfg) r pos with
           | Err e => Err e
-          | Ok r' => Ok (mkRS (set_nth j r' (rs_rungs rs)) (rs_running rs) thr' (rs_idx rs) (rs_cap rs),
+          | Ok r' => Ok (mkRS (set_nth j r' (rs_rungs rs)) (rs_running rs) thr' (rs_idx rs) (rs_cap rs) (rs_hist rs),
                          Some (j, t, level, next_ms))
           end
       end
@@ -275,7 +291,7 @@ Definition first_milestone (cfg : config) (rs : rsys) (skip : nat) : Z :=
   else c_max_t cfg.
 
 Definition set_running (rs : rsys) (run : list (Z * (Z * option Z))) : rsys :=
-  mkRS (rs_rungs rs) run (rs_thr rs) (rs_idx rs) (rs_cap rs).
+  mkRS (rs_rungs rs) run (rs_thr rs) (rs_idx rs) (rs_cap rs) (rs_hist rs).
 
 (* PromotionRungSystem.on_task_add *)
 Definition rs_on_task_add_new (cfg : config) (rs : rsys) (t : Z) (skip : nat) : rsys :=
@@ -311,7 +327,7 @@ Definition promo_on_task_report (cfg : config) (rs : rsys) (t resource : Z) (met
             | Some r =>
                 if in_rung t r then Err EInRung else
                 let r' := mkR (r_level r) (r_q r) (insert (c_mode cfg) (mkE t metric cost false) (r_data r)) in
-                Ok (mkRS (set_nth p r' (rs_rungs rs)) (rs_running rs) (rs_thr rs) (rs_idx rs) (rs_cap rs),
+                Ok (mkRS (set_nth p r' (rs_rungs rs)) (rs_running rs) (rs_thr rs) (rs_idx rs) (rs_cap rs) (rs_hist rs),
                     mkInfo false true ignore)
             end
         end
@@ -338,52 +354,172 @@ Fixpoint soft_groups (md : mode) (eps : Q) (before_rev l : list entry) : list (l
               ++ take_close (far_better md eps (e_metric x)) before_rev)
       :: soft_groups md eps (x :: before_rev) r
   end.
-(* keep_current_budget; previous_rung_groups[idx] may raise IndexError *)
-Fixpoint check_top (top : list entry) (groups : list (list Z)) : result bool :=
+(* keep_current_budget: a trial of the top rung without a group in the previous rung (it started in a
+   higher bracket) counts as a change of the ranking *)
+Fixpoint check_top (top : list entry) (groups : list (list Z)) : bool :=
   match top with
-  | [] => Ok true
+  | [] => true
   | x :: r =>
       match groups with
-      | [] => Err EIndex
-      | g :: gs => if mem_Z (e_id x) g then check_top r gs else Ok false
+      | [] => false
+      | g :: gs => if mem_Z (e_id x) g then check_top r gs else false
       end
   end.
-(* _get_top_two_rungs_rankings + _decide_resource_increase; [eps] = self.epsilon after _update_epsilon *)
-Definition pasha_increase (cfg : config) (rs : rsys) (eps : Q) : result bool :=
-  match py_nth (rs_rungs rs) (- Z.of_nat (rs_idx rs)), py_nth (rs_rungs rs) (- Z.of_nat (rs_idx rs) + 1) with
+(* one ranking of _get_top_two_rungs_rankings: rung position i (python index) if it exists and the rung
+   is not empty *)
+Definition ranking_of (rs : rsys) (i : Z) : option rung :=
+  match py_nth (rs_rungs rs) i with
+  | Some r => match r_data r with [] => None | _ :: _ => Some r end
+  | None => None
+  end.
+(* _get_top_two_rungs_rankings + _decide_resource_increase; [eps] = self.epsilon *)
+Definition pasha_increase (cfg : config) (rs : rsys) (eps : Q) : bool :=
+  match ranking_of rs (- Z.of_nat (rs_idx rs)), ranking_of rs (- Z.of_nat (rs_idx rs) + 1) with
   | Some top, Some prev =>
-      match r_data top, r_data prev with
-      | _ :: _, _ :: _ =>
-          let prev_f := filter (fun e => in_data (e_id e) (r_data top)) (r_data prev) in
-          let eps' := if (length prev_f <? 2)%nat then 0 else eps in
-          match check_top (r_data top) (soft_groups (c_mode cfg) eps' [] prev_f) with
-          | Ok keep => Ok (negb keep)
-          | Err e => Err e
-          end
-      | _, _ => Ok false
-      end
-  | _, _ => Err EIndex
+      let prev_f := filter (fun e => in_data (e_id e) (r_data top)) (r_data prev) in
+      let eps' := if (length prev_f <? 2)%nat then 0 else eps in
+      negb (check_top (r_data top) (soft_groups (c_mode cfg) eps' [] prev_f))
+  | _, _ => false
   end.
 
-Definition pasha_on_task_report (cfg : config) (rs : rsys) (t resource : Z) (metric cost eps : Q)
+(* ---- PASHA epsilon (_update_per_epoch_results, _update_epsilon) ------------ *)
+(* what the model cannot compute: the iteration order of the python sets epoch_to_trials[epoch]
+   (per epoch: the order in which itertools.combinations sees the trials) and the value
+   np.percentile(noisy_cfg_distances, 90) *)
+Record oracle := mkO { o_orders : list (Z * list Z); o_pct : Q }.
+
+Definition set_hist (rs : rsys) (h : hist) : rsys :=
+  mkRS (rs_rungs rs) (rs_running rs) (rs_thr rs) (rs_idx rs) (rs_cap rs) h.
+
+(* _update_per_epoch_results *)
+Definition add_result (h : hist) (t resource : Z) (metric : Q) : hist :=
+  let row := match lookup t (h_results h) with Some r => r | None => [] end in
+  let trials := match lookup resource (h_epochs h) with Some l => l | None => [] end in
+  mkH (h_eps h) (update t (update resource metric row) (h_results h))
+      (update resource (if mem_Z t trials then trials else trials ++ [t]) (h_epochs h))
+      (Z.max (h_max_epoch h) resource).
+
+(* range(hi, lo, -1) *)
+Definition zrange_down (hi lo : Z) : list Z :=
+  map (fun k => (hi - Z.of_nat k)%Z) (seq 0 (Z.to_nat (hi - lo))).
+(* itertools.combinations(l, 2) *)
+Fixpoint pairs {A} (l : list A) : list (A * A) :=
+  match l with [] => [] | x :: r => map (pair x) r ++ pairs r end.
+Definition mem_pair (p : Z * Z) (l : list (Z * Z)) : bool :=
+  existsb (fun q => Z.eqb (fst p) (fst q) && Z.eqb (snd p) (snd q)) l.
+Definition is_perm_Z (a b : list Z) : bool :=
+  Nat.eqb (length a) (length b) && forallb (fun x => mem_Z x b) a && forallb (fun x => mem_Z x a) b.
+
+(* the loop over prev_epoch: did the two learning curves cross and cross back (opposite order, then the
+   order of [cond] again, going down from epoch-1 to 1)?  KeyError if a curve misses a level *)
+Fixpoint crossing (row1 row2 : list (Z * Q)) (cond : bool) (prev_epochs : list Z) (opposite : bool)
+  : result bool :=
+  match prev_epochs with
+  | [] => Ok false
+  | pe :: rest =>
+      match lookup pe row1, lookup pe row2 with
+      | Some pp1, Some pp2 =>
+          let p_cond := Qltb pp2 pp1 in
+          let opposite' := opposite || Bool.eqb p_cond (negb cond) in
+          if opposite' && Bool.eqb p_cond cond then Ok true
+          else crossing row1 row2 cond rest opposite'
+      | _, _ => Err EKey
+      end
+  end.
+
+Fixpoint eps_pairs (h : hist) (epoch : Z) (ps : list (Z * Z)) (seen : list (Z * Z)) (acc : list Q)
+  : result (list (Z * Z) * list Q) :=
+  match ps with
+  | [] => Ok (seen, acc)
+  | (c1, c2) :: rest =>
+      if mem_pair (c1, c2) seen then eps_pairs h epoch rest seen acc else
+      match lookup c1 (h_results h), lookup c2 (h_results h) with
+      | Some row1, Some row2 =>
+          match lookup epoch row1, lookup epoch row2 with
+          | Some p1, Some p2 =>
+              match crossing row1 row2 (Qltb p2 p1) (zrange_down (epoch - 1) 0) false with
+              | Err e => Err e
+              | Ok noisy =>
+                  eps_pairs h epoch rest ((c1, c2) :: seen) (if noisy then acc ++ [Qabs (p1 - p2)] else acc)
+              end
+          | _, _ => Err EKey
+          end
+      | _, _ => Err EKey
+      end
+  end.
+
+Fixpoint eps_epochs (h : hist) (orders : list (Z * list Z)) (epochs : list Z) (seen : list (Z * Z))
+         (acc : list Q) : result (list Q) :=
+  match epochs with
+  | [] => Ok acc
+  | ep :: rest =>
+      match lookup ep (h_epochs h) with
+      | None => Err EKey
+      | Some trials =>
+          if (1 <? length trials)%nat then
+            let ord := match lookup ep orders with
+                       | Some o => if is_perm_Z o trials then o else trials
+                       | None => trials
+                       end in
+            match eps_pairs h ep (pairs ord) seen acc with
+            | Err e => Err e
+            | Ok (seen', acc') => eps_epochs h orders rest seen' acc'
+            end
+          else eps_epochs h orders rest seen acc
+      end
+  end.
+
+(* noisy_cfg_distances of _update_epsilon; None = no previous rung (single rung level): nothing is done *)
+Definition noisy_distances (rs : rsys) (orc : oracle) : option (result (list Q)) :=
+  match py_nth (rs_rungs rs) (- Z.of_nat (rs_idx rs)), py_nth (rs_rungs rs) (- Z.of_nat (rs_idx rs) + 1) with
+  | Some rt, Some rp =>
+      let h := rs_hist rs in
+      let top_epoch := Z.min (h_max_epoch h) (r_level rt) in
+      let bottom_epoch := Z.min (r_level rp) (h_max_epoch h) in
+      Some (eps_epochs h (o_orders orc) (zrange_down top_epoch bottom_epoch) [] [])
+  | _, _ => None
+  end.
+
+(* _update_epsilon *)
+Definition update_epsilon (rs : rsys) (orc : oracle) : result rsys :=
+  match noisy_distances rs orc with
+  | None => Ok rs
+  | Some (Err e) => Err e
+  | Some (Ok []) => Ok rs
+  | Some (Ok (_ :: _)) =>
+      let h := rs_hist rs in
+      Ok (set_hist rs (mkH (o_pct orc) (h_results h) (h_epochs h) (h_max_epoch h)))
+  end.
+
+(* the resource level is increased: next rung level, finally max_t *)
+Definition pasha_raise_cap (cfg : config) (rs : rsys) : result rsys :=
+  if (rs_idx rs <? length (rs_rungs rs))%nat then
+    match py_nth (rs_levels rs) (Z.of_nat (S (rs_idx rs)) - 1) with
+    | None => Err EIndex
+    | Some c => Ok (mkRS (rs_rungs rs) (rs_running rs) (rs_thr rs) (S (rs_idx rs)) c (rs_hist rs))
+    end
+  else Ok (mkRS (rs_rungs rs) (rs_running rs) (rs_thr rs) (rs_idx rs) (c_max_t cfg) (rs_hist rs)).
+
+(* the part of PASHARungSystem.on_task_report after the superclass call *)
+Definition pasha_after_report (cfg : config) (rs1 : rsys) (t resource : Z) (metric : Q) (orc : oracle)
+  : result rsys :=
+  match update_epsilon (set_hist rs1 (add_result (rs_hist rs1) t resource metric)) orc with
+  | Err e => Err e
+  | Ok rs2 => if pasha_increase cfg rs2 (h_eps (rs_hist rs2)) then pasha_raise_cap cfg rs2 else Ok rs2
+  end.
+
+Definition pasha_on_task_report (cfg : config) (rs : rsys) (t resource : Z) (metric cost : Q) (orc : oracle)
   : result (rsys * report_info) :=
   match promo_on_task_report cfg rs t resource metric cost with
   | Err e => Err e
   | Ok (rs1, info) =>
-      match pasha_increase cfg rs1 eps with
+      match pasha_after_report cfg rs1 t resource metric orc with
       | Err e => Err e
-      | Ok false => Ok (rs1, info)
-      | Ok true =>
-          if (rs_idx rs1 <? length (rs_rungs rs1))%nat then
-            match py_nth (rs_levels rs1) (Z.of_nat (S (rs_idx rs1)) - 1) with
-            | None => Err EIndex
-            | Some c => Ok (mkRS (rs_rungs rs1) (rs_running rs1) (rs_thr rs1) (S (rs_idx rs1)) c, info)
-            end
-          else Ok (mkRS (rs_rungs rs1) (rs_running rs1) (rs_thr rs1) (rs_idx rs1) (c_max_t cfg), info)
+      | Ok rs3 => Ok (rs3, info)
       end
   end.
 
-Definition rs_on_task_report (cfg : config) (rs : rsys) (t resource : Z) (metric cost eps : Q)
+Definition rs_on_task_report (cfg : config) (rs : rsys) (t resource : Z) (metric cost : Q) (eps : oracle)
   : result (rsys * report_info) :=
   match c_variant cfg with
   | VPasha => pasha_on_task_report cfg rs t resource metric cost eps
@@ -411,11 +547,11 @@ Definition sys_of (cfg : config) (bracket : nat) : nat * nat :=
   if c_per_bracket cfg then (bracket, O) else (O, bracket).
 
 Inductive event :=
-| Suggest (new_id : Z) (bracket : nat) (b : bool) (got_config : bool)
+| Suggest (new_id : Z) (bracket : nat) (b : bres) (got_config : bool)
     (* scheduler.suggest(new_id); [bracket] = the sampled bracket, [b] resolves Boundary
        comparisons, [got_config] = searcher.get_config returned a config *)
 | Add (t : Z)                                             (* on_trial_add: no effect *)
-| Report (t : Z) (resource : Z) (metric cost : Q) (eps : Q)  (* on_trial_result; eps = PASHA oracle *)
+| Report (t : Z) (resource : Z) (metric cost : Q) (eps : oracle)  (* on_trial_result; eps = PASHA oracles *)
 | Remove (t : Z)                                          (* on_trial_remove *)
 | Complete (t : Z)                                        (* on_trial_complete *)
 | Fail (t : Z).                                           (* on_trial_error *)
@@ -446,7 +582,7 @@ Definition cleanup (cfg : config) (st : state) (t : Z) (d : decision) : state :=
   mkS sys' task' active' (st_off st).
 
 (* FIFOScheduler._suggest with HyperbandScheduler._promote_trial / _on_config_suggest *)
-Definition suggest (cfg : config) (st : state) (new_id : Z) (bracket : nat) (b got : bool)
+Definition suggest (cfg : config) (st : state) (new_id : Z) (bracket : nat) (b : bres) (got : bool)
   : result (state * output) :=
   let '(sid, skip) := sys_of cfg bracket in
   match nth_error (st_sys st) sid with
@@ -485,7 +621,7 @@ Definition suggest (cfg : config) (st : state) (new_id : Z) (bracket : nat) (b g
 
 (* HyperbandScheduler.on_trial_result; do_update = _update_searcher(...): for searcher_data = "rungs" only
    at rung levels / max_t, otherwise for every report that is not ignored *)
-Definition on_trial_result (cfg : config) (st : state) (t resource : Z) (metric cost eps : Q)
+Definition on_trial_result (cfg : config) (st : state) (t resource : Z) (metric cost : Q) (eps : oracle)
   : result (state * decision) :=
   if (resource <? 1)%Z then Err EBadResource else
   let total := if c_cost cfg
